@@ -203,6 +203,35 @@ def _extra_job(args):
     small.update(keep)
     recs.append({'kind': 'zero', 'variant': variant, 'route': route, 'option': 'imf_opts/energy_thresh', 'raised': int(isinstance(a, str) or isinstance(b, str)),
                  'same': int(not isinstance(a, str) and not isinstance(b, str) and a.shape == b.shape and np.array_equal(a, b))})
+    # the supplied extrema / envelope options keep their effect when the data is expressed in a tiny unit (an exact power
+    # of two: every intermediate scales exactly) - an option that is silently dropped below some absolute size shows here
+    def call_x(arr, eo, xo, st):          # st: sift_thresh, an ABSOLUTE magnitude by its documentation - it is scaled with the unit
+        np.random.seed(3)
+        if route == 'kwargs':
+            r = fn(arr, imf_opts={'stop_method': 'fixed', 'max_iters': 3}, envelope_opts=dict(eo), extrema_opts=dict(xo), sift_thresh=st, **small)
+        else:
+            c = S.get_config(variant)
+            for k, v in small.items():
+                c[k] = v
+            c['imf_opts']['stop_method'] = 'fixed'
+            c['imf_opts']['max_iters'] = 3
+            c['envelope_opts'].update(eo)
+            c['extrema_opts'].update(xo)
+            c['sift_thresh'] = st
+            r = fn(arr, **c) if route == 'config' else c.get_func()(arr)
+        return r[0] if isinstance(r, tuple) else r
+    if variant in ('sift', 'mask_sift'):
+        unit = 2.0 ** -40
+        kz = dict(small)
+        if variant == 'mask_sift':
+            small['mask_amp_mode'] = 'ratio_sig'
+        a = core.guarded(call_x, x, {'interp_method': 'pchip'}, {'parabolic_extrema': True, 'pad_width': 3}, 1e-8, _timeout=120)
+        b = core.guarded(call_x, x * unit, {'interp_method': 'pchip'}, {'parabolic_extrema': True, 'pad_width': 3}, 1e-8 * unit, _timeout=120)
+        small.clear()
+        small.update(kz)
+        bad = isinstance(a, str) or isinstance(b, str)
+        recs.append({'kind': 'zero', 'variant': variant, 'route': route, 'option': 'extrema_opts/parabolic_extrema at a unit of 2^-40', 'raised': int(bad),
+                     'same': int(not bad and a.shape == b.shape and np.array_equal(a * unit, b))})
     # one option object, two calls, edited in place in between; the reference is a call with a fresh object holding the new values
     first = {'stop_method': 'fixed', 'max_iters': 2, 'env_step_size': 1}
     second = {'stop_method': 'fixed', 'max_iters': 5, 'env_step_size': .5}
